@@ -162,9 +162,12 @@ func (p *ProjectRunner) runProcess(config *types.ProcessConfig) error {
 		if err = p.waitIfNeeded(proc.procConf); err != nil {
 			log.Error().Msgf("Error: %s", err.Error())
 			log.Error().Msgf("Error: process %s won't run", proc.getName())
-			proc.wontRun()
+			skipped := proc.wontRun()
 			p.addDoneProcess(proc)
-			p.onProcessSkipped(proc.procConf)
+			if skipped {
+				// an instance that a stop request ended while it was pending was not skipped
+				p.onProcessSkipped(proc.procConf)
+			}
 		} else {
 			exitCode := proc.run()
 			p.addDoneProcess(proc)
